@@ -78,6 +78,10 @@ fn run_mapped(input: &[u8], mask: u32, empties: bool, fin: Fin, marker: u8, f: f
                         // std contract: caller would re-submit the rest; do so
                         w.write_all(&c[n..]).map_err(|e| e.to_string())?;
                     }
+                    if empties {
+                        // a flush between two write calls (what a BufWriter in front does) is not a segment boundary
+                        w.flush().map_err(|e| e.to_string())?;
+                    }
                 }
                 w.flush().map_err(|e| e.to_string())?;
             }
@@ -87,6 +91,9 @@ fn run_mapped(input: &[u8], mask: u32, empties: bool, fin: Fin, marker: u8, f: f
             let mut w = mapped(Vec::new(), marker, f);
             for c in chunks(input, mask, empties) {
                 w.write_all(c).map_err(|e| e.to_string())?;
+                if empties {
+                    w.flush().map_err(|e| e.to_string())?;
+                }
             }
             Ok(w.unwrap())
         }
@@ -119,9 +126,17 @@ fn check_mapped(input: &[u8], mask: u32, empties: bool, fin: Fin) -> Check {
 struct ShortWriter {
     max: usize,
     data: Vec<u8>,
+    calls: usize,
 }
 impl Write for ShortWriter {
     fn write(&mut self, buf: &[u8]) -> std::io::Result<usize> {
+        // bounds that are odd make the writer answer `Interrupted` ("nothing consumed, try again") on every third call
+        if self.max % 2 == 1 && self.max < usize::MAX {
+            self.calls += 1;
+            if self.calls % 3 == 2 {
+                return Err(std::io::Error::from(std::io::ErrorKind::Interrupted));
+            }
+        }
         let n = buf.len().min(self.max);
         self.data.extend_from_slice(&buf[..n]);
         Ok(n)
@@ -132,17 +147,46 @@ impl Write for ShortWriter {
 }
 
 fn check_tee(input: &[u8], mask: u32, max_a: usize, max_b: usize) -> Check {
-    let mut a = ShortWriter { max: max_a, data: vec![] };
-    let mut b = ShortWriter { max: max_b, data: vec![] };
+    let mut a = ShortWriter { max: max_a, data: vec![], calls: 0 };
+    let mut b = ShortWriter { max: max_b, data: vec![], calls: 0 };
     {
         let mut t = tee(&mut a, &mut b);
-        for c in chunks(input, mask, false) {
-            // honour the Write contract: re-submit what was not accepted
-            let mut rest = c;
-            while !rest.is_empty() {
-                let n = t.write(rest).map_err(|e| Fail::new("C19:tee:io-error", e.to_string()))?;
-                ensure!(n > 0 && n <= rest.len(), "C19:tee:bad-write-count", "write returned {n} for {} bytes", rest.len());
-                rest = &rest[n..];
+        if mask % 2 == 1 && !input.is_empty() {
+            // the same chunks handed over as ONE vectored write (re-submitting what was not accepted, as write_all_vectored does)
+            let cs = chunks(input, mask, false);
+            let mut consumed = 0usize;
+            while consumed < input.len() {
+                let mut skip = consumed;
+                let mut slices: Vec<std::io::IoSlice> = vec![];
+                for c in &cs {
+                    if skip >= c.len() {
+                        skip -= c.len();
+                    } else {
+                        slices.push(std::io::IoSlice::new(&c[skip..]));
+                        skip = 0;
+                    }
+                }
+                let n = match t.write_vectored(&slices) {
+                    Ok(n) => n,
+                    Err(e) if e.kind() == std::io::ErrorKind::Interrupted => continue,
+                    Err(e) => return Err(Fail::new("C19:tee:io-error", e.to_string())),
+                };
+                ensure!(n > 0 && consumed + n <= input.len(), "C19:tee:bad-write-count", "write_vectored returned {n} with {} bytes outstanding", input.len() - consumed);
+                consumed += n;
+            }
+        } else {
+            for c in chunks(input, mask, false) {
+                // honour the Write contract: re-submit what was not accepted
+                let mut rest = c;
+                while !rest.is_empty() {
+                    let n = match t.write(rest) {
+                        Ok(n) => n,
+                        Err(e) if e.kind() == std::io::ErrorKind::Interrupted => continue,
+                        Err(e) => return Err(Fail::new("C19:tee:io-error", e.to_string())),
+                    };
+                    ensure!(n > 0 && n <= rest.len(), "C19:tee:bad-write-count", "write returned {n} for {} bytes", rest.len());
+                    rest = &rest[n..];
+                }
             }
         }
         t.flush().map_err(|e| Fail::new("C19:tee:io-error", e.to_string()))?;
@@ -555,8 +599,8 @@ fn run_script(scratch: &Scratch, s: &Script, watchdog: Duration) -> Outcome {
                 2 => 4096,
                 _ => 100_000,
             };
-            let mut swo = ShortWriter { max: bound(1), data: vec![] };
-            let mut swe = ShortWriter { max: bound(2), data: vec![] };
+            let mut swo = ShortWriter { max: bound(1), data: vec![], calls: 0 };
+            let mut swe = ShortWriter { max: bound(2), data: vec![], calls: 0 };
             let r = run_with_writers(&mut cmd, &s2, &mut swo, &mut swe, &want_o, &want_e);
             let (wo, we) = (swo.data, swe.data);
             r?;
@@ -712,7 +756,7 @@ fn run_early_close(ctx: &Ctx, sleeps_ms: &[u64]) {
 }
 
 pub fn run(ctx: &Ctx) {
-    ctx.set_rule("(1) child scripts: 0..8 steps of (stream, size in {0,1..200,4096,65536,65537,..262144}, pause), single-threaded interleaved or one thread per stream, early close of a stream, exit code, in 1 of 5 scripts a supplied writer that fails after 0/10/5000/70000 bytes (the call must still come back); otherwise the supplied writers accept at most 7 / 4096 / 100000 / unbounded bytes per write call (chosen per stream); run through output_and_write_streams and spawn_and_write_streams, compared bytewise with the script's per-stream content; children that close both streams and keep running for 3-6 s must not delay the return of spawn_and_write_streams. (2) MappedWrite: EXHAUSTIVE all byte strings of length <= L over {marker,a,b} (L=8 quick, 10 thorough) x all 2^(n-1) chunkings into write calls (+ zero-length writes on every fifth chunking) x finalisation by drop and by unwrap, mapping seg -> '[' seg ']'; sampled inputs <=200 bytes with add_prefix / map_utf8_lossy / repeat under random chunkings. (3) TeeWrite under the same chunkings with short-writing targets (1..3 bytes per write). Non-trivial: (1) a stream carries more than one 64 KiB pipe buffer while the other stream is still open; (2) input contains a marker and a write boundary falls inside a segment; distinct = hash of script / (input, chunking).");
+    ctx.set_rule("(1) child scripts: 0..8 steps of (stream, size in {0,1..200,4096,65536,65537,..262144}, pause), single-threaded interleaved or one thread per stream, early close of a stream, exit code, in 1 of 5 scripts a supplied writer that fails after 0/10/5000/70000 bytes (the call must still come back); otherwise the supplied writers accept at most 7 (and answer Interrupted on every third call) / 4096 / 100000 / unbounded bytes per write call (chosen per stream); run through output_and_write_streams and spawn_and_write_streams, compared bytewise with the script's per-stream content; children that close both streams and keep running for 3-6 s must not delay the return of spawn_and_write_streams. (2) MappedWrite: EXHAUSTIVE all byte strings of length <= L over {marker,a,b} (L=8 quick, 10 thorough) x all 2^(n-1) chunkings into write calls (+ zero-length writes on every fifth chunking) x finalisation by drop and by unwrap, mapping seg -> '[' seg ']'; sampled inputs <=200 bytes with add_prefix / map_utf8_lossy / repeat under random chunkings. (3) TeeWrite under the same chunkings, fed by write and (odd chunkings) by one write_vectored call over all chunks, with short-writing targets (1..3 bytes per write; odd bounds also answer Interrupted on every third call). MappedWrite chunkings with empty writes also flush between the write calls. Non-trivial: (1) a stream carries more than one 64 KiB pipe buffer while the other stream is still open; (2) input contains a marker and a write boundary falls inside a segment; distinct = hash of script / (input, chunking).");
     ctx.assume("deadlock is decided by a 30 s watchdog plus /proc/<child>/syscall showing the child blocked in write(2) on fd 1 or 2; any other watchdog expiry is reported as inconclusive (exit 2)");
     ctx.assume("the OS scheduler is not controlled; the blocking structure is controlled through the child's script");
     ctx.set_exhaustive(true);
